@@ -31,6 +31,7 @@ type ChanSpec struct {
 	TargetNet string // "unix" (default) or "tcp"
 	Tagged    bool
 	Banner    []byte
+	Socks     bool // a socks:// channel (the server's built-in SOCKS5 proxy): no fixed target
 }
 
 // Options selects what Start builds.
@@ -206,6 +207,11 @@ func Start(o Options) (*Pair, error) {
 	// targets and channels
 	var channels server.Channels
 	for _, cs := range o.Channels {
+		if cs.Socks {
+			channels = append(channels, &server.SocksChannel{AbstractChannel: server.AbstractChannel{
+				ProtoName: addr.ProtoName{Name: cs.Name}, Address: addr.MustParseAddress("socks://")}})
+			continue
+		}
 		netw := cs.TargetNet
 		if netw == "" {
 			// unix-domain targets live in the child's private directory: no other process can ever
@@ -498,4 +504,49 @@ func (p *Pair) Close() {
 	if p.stdioApp != nil {
 		p.stdioApp.Close()
 	}
+}
+
+// OpenSocks opens a logical connection on a socks channel and asks the server's SOCKS5 proxy to
+// CONNECT to tgt (a TCP recording target); it returns both ends like Open.
+func (p *Pair) OpenSocks(channel string, tgt *Target) (app, t net.Conn, o Outcome, err error) {
+	app, err = p.Dial(channel)
+	if err != nil {
+		return nil, nil, Done, err
+	}
+	host, portS, _ := net.SplitHostPort(tgt.Addr)
+	ip := net.ParseIP(host).To4()
+	var port int
+	fmt.Sscanf(portS, "%d", &port)
+	done := Go(func() {
+		if _, err = app.Write([]byte{5, 1, 0}); err != nil {
+			return
+		}
+		rep := make([]byte, 2)
+		if _, err = io.ReadFull(app, rep); err != nil {
+			return
+		}
+		Bump(2)
+		if rep[0] != 5 || rep[1] != 0 {
+			err = fmt.Errorf("socks method reply %v", rep)
+			return
+		}
+		req := append([]byte{5, 1, 0, 1}, ip...)
+		req = append(req, byte(port>>8), byte(port))
+		if _, err = app.Write(req); err != nil {
+			return
+		}
+		rep = make([]byte, 10)
+		if _, err = io.ReadFull(app, rep); err != nil {
+			return
+		}
+		Bump(10)
+		if rep[1] != 0 {
+			err = fmt.Errorf("socks connect reply %v", rep)
+		}
+	})
+	if o = Wait(done); o != Done || err != nil {
+		return app, nil, o, err
+	}
+	t, o = tgt.Next()
+	return
 }
